@@ -323,7 +323,8 @@ type ctx struct {
 	fresh      int
 	fields     map[string]lty // struct-parameter fields used: lean name -> type
 	fieldOrder []string
-	retSel     string // "_ret" or "_retK" for the K-th result of a multi-result callee
+	named      []types.Object // named result parameters, in order
+	retSel     string         // "_ret" or "_retK" for the K-th result of a multi-result callee
 	rets       []lty
 }
 
@@ -543,10 +544,16 @@ func (c *ctx) binary(op token.Token, X, Y ast.Expr, en *env, rt lty) string {
 	if op == token.LAND || op == token.LOR {
 		// Go evaluates the right operand only when needed; its panics conditions must be guarded likewise
 		a := c.expr(X, en)
+		before := map[types.Object]string{}
+		for k, v := range en.vars {
+			before[k] = v
+		}
 		sub := &env{vars: en.vars}
 		b := c.expr(Y, sub)
-		if strings.Contains(b, "§let ") {
-			refuse("a call that assigns through a pointer inside the right operand of %s", op)
+		for k, v := range en.vars {
+			if before[k] != v {
+				refuse("a call that assigns through a pointer inside the right operand of %s", op)
+			}
 		}
 		for _, k := range sub.oks {
 			if op == token.LAND {
@@ -1550,6 +1557,11 @@ func (c *ctx) leaf(rs []ast.Expr, en *env, o *out, mode string) {
 	for _, r := range rs {
 		rvs = append(rvs, c.ev(r, en, o))
 	}
+	if len(rs) == 0 && len(c.named) == len(c.rets) {
+		for _, ro := range c.named {
+			rvs = append(rvs, en.vars[ro])
+		}
+	}
 	if strings.HasPrefix(mode, "ret") {
 		k := 0
 		if len(mode) > 3 {
@@ -1715,6 +1727,32 @@ func translate(repo string, tg target) {
 			}
 		}
 		o := &out{}
+		// named results start at their zero values; a bare return returns their current values
+		c.named = nil
+		if fd.Type.Results != nil {
+			for _, f := range fd.Type.Results.List {
+				for _, id := range f.Names {
+					ro := p.info.Defs[id]
+					if ro == nil || id.Name == "_" {
+						refuse("%s: blank named result", tg.name)
+					}
+					t := ltype(ro.Type())
+					var z string
+					switch t.kind {
+					case "bv":
+						z = fmt.Sprintf("0#%d", t.w)
+					case "bool", "err":
+						z = "false"
+					case "arr":
+						z = "0#64"
+					default:
+						refuse("%s: named result of type %s", tg.name, ro.Type())
+					}
+					en.vars[ro] = z
+					c.named = append(c.named, ro)
+				}
+			}
+		}
 		c.stmts(fd.Body.List, nil, en, o, mode)
 		bodies[mode] = o.sb.String()
 		if mode == "recv" {
